@@ -54,7 +54,7 @@ TIERS = {
 }
 T0 = AggHarness.T0
 E = "E1"
-FAULTS = ["reconnect", "graceful", "drained", "abrupt", "reconnect-dbfail"]
+FAULTS = ["reconnect", "graceful", "drained", "abrupt", "reconnect-dbfail", "reconnect-slowpush"]
 # The engine reports its System State as an ordinary tag.  The RunStarted notification precedes the tag update that carries
 # "Running" (EngineRunner posts RunStartedMsg from the on_start event, the state change travels with the next tag batch),
 # so for a moment the aggregator knows the run while the last System State it has seen is still "Stopped".
@@ -97,6 +97,7 @@ def _run(case):
     nontrivial = False
     seen_rows = 0
     emitted: set[str] = set()
+    release_push = None
 
     def emit(sig, msg):
         if sig not in emitted:
@@ -161,8 +162,13 @@ def _run(case):
             idle_faults = fault_log[mark_idle:]
             if kind == "disconnect" and op.get("db_fault") is True and connected:
                 res = _disconnect_with_failing_db_write(h, op, classes)
+            elif kind == "disconnect" and op.get("slow_push") is True and connected:
+                res, release_push = _disconnect_with_slow_push(h, classes)
             else:
                 res = h.apply(op)
+                if release_push is not None and kind == "register":
+                    release_push()          # the push service answers after the engine has registered again
+                    release_push = None
             if res["skipped"] is not None:
                 classes.add("skipped:" + res["skipped"])
                 continue
@@ -179,6 +185,12 @@ def _run(case):
                 nontrivial |= cur is not None
             elif kind == "uod_info":
                 uod_sent = res.get("reply") == "SuccessMessage"
+                if not uod_sent:
+                    # the engine has registered and connected as the protocol demands; an aggregator that does not know it
+                    # any more cannot continue its run (everything the engine sends from here on is refused)
+                    emit("uod-info-refused:" + _label(run_faults if cur is not None else idle_faults),
+                         "op %d %r answered %r although the engine registered and connected before (engine's current run: %r; "
+                         "aggregator knows the engine: %r)" % (idx, op, res.get("reply"), cur, h.engine_data(E) is not None))
             elif kind == "run_started":
                 if res.get("reply") == "SuccessMessage":
                     cur = op["run"]
@@ -241,6 +253,49 @@ def _run(case):
     return out, classes, nontrivial
 
 
+def _disconnect_with_slow_push(h, classes):
+    """the engine's websocket closes while the web push service is slow: the disconnect handling is started, runs as far
+    as it can without the push service's answer, and the caller gets a function that lets the service answer."""
+    import asyncio
+    e = h._eng(E)
+    ch, e.channel = e.channel, None
+    e.registered_id = None
+    ch.closed = True
+    gate = asyncio.Event()
+    wp = h.webpush_publisher
+    real_publish = wp.publish_message
+    waited = []
+
+    async def slow_publish(notification, topic, process_unit):
+        waited.append(1)
+        await gate.wait()
+        return await real_publish(notification, topic, process_unit)
+
+    wp.publish_message = slow_publish
+    task = h.loop.create_task(h.dispatcher.on_client_disconnect(ch))
+
+    async def spin():
+        for _ in range(30):
+            await asyncio.sleep(0)
+    h.loop.run_until_complete(spin())
+    classes.add("fault:slow-push-at-disconnect:" + ("push-pending" if waited and not gate.is_set() else "no-push")
+                + (":handler-waits-for-it" if not task.done() else ""))
+
+    def release():
+        gate.set()
+        wp.publish_message = real_publish
+
+        async def fin():
+            for _ in range(50):
+                if task.done():
+                    break
+                await asyncio.sleep(0)
+            if task.done() and not task.cancelled() and task.exception() is not None:
+                classes.add("fault:slow-push-at-disconnect:handler-raised:" + type(task.exception()).__name__)
+        h.run(fin())
+    return {"op": "disconnect", "skipped": None}, release
+
+
 def _disconnect_with_failing_db_write(h, op, classes):
     """the connection drops and the one database write of the disconnect handling (the RecentEngine row) fails once.
     Whatever the handler does with the error - the websocket endpoint logs an exception of its on_disconnect callback -
@@ -285,6 +340,10 @@ def _connect_block(interval, readings, snapshot_t=None, sys_state=None):
 def _fault_block(kind, interval, readings, snapshot_t, sys_state=None):
     if kind == "reconnect":
         head = [{"op": "disconnect"}]
+    elif kind == "reconnect-slowpush":
+        # the "connection lost" push notification of the disconnect is still being delivered (slow push service) when the
+        # engine registers again: whatever part of the disconnect handling waits for it runs AFTER the re-registration
+        head = [{"op": "disconnect", "slow_push": True}]
     elif kind == "reconnect-dbfail":
         # the database write the aggregator makes when the connection drops fails (locked file, full disk)
         head = [{"op": "disconnect", "db_fault": True}]
